@@ -427,6 +427,14 @@ def r4_order(chk: Check):
         v = src(inloops[0].ast.target)
         ok = ok and any(src(c) == f"specs.extend(parse({v}))" for _, c in muts) and any(src(c) == f"specs.append({v})" for _, c in muts)
     comp_form = False
+    if not ok and len(inloops) == 1 and len(muts) == 1 and muts[0][1].func.attr == "extend" and len(muts[0][1].args) == 1:
+        # one `specs.extend(<parse(spec) or [spec]>)` per argument, the operand chosen on the way
+        n, c = muts[0]
+        body = gf.reachable([m for m, l in inloops[0].succ if l == "loop"][0], avoid=[inloops[0]])
+        v = src(inloops[0].ast.target)
+        forms = set(expansions(ReachingDefs(gf), c.args[0], n, depth=4))
+        e = f"ELEM({src(inloops[0].ast.iter)})"
+        ok = n.id in body and any(forms == {f"parse({x})", y} for x in (v, e) for y in (f"[{x}]", f"({x},)"))
     if not ok:
         # equivalent single expression: [r for spec in input_specs for r in (parse(spec) if isinstance(spec, str) else (spec,))]
         for n in gf.live:
@@ -449,27 +457,57 @@ def r4_order(chk: Check):
 
 def r5_conjunction_per_dimension(chk: Check):
     """`a & b` asks for the maximum of *each* dimension: CPU specifications are not totally ordered (more memory vs more cores), so taking
-    "the larger specification" drops one side's demand"""
+    "the larger specification" drops one side's demand.  Examined wherever the merge is written: `_add`, or `__init__` / `__and__` themselves"""
     tree = chk.tree
-    f = tree.func("launcherfinder.specs", "HostSimpleRequirement._add")
-    g = CFG(f.node)
-    rd = ReachingDefs(g)
-    p = f.node.args.args[1].arg
-    loc = chk.loc(f.module, f.node)
-    want = {"self.cpu.memory": {f"{p}.cpu.memory", "self.cpu.memory"}, "self.cpu.cores": {f"{p}.cpu.cores", "self.cpu.cores"}, "self.duration": {f"{p}.duration", "self.duration"}}
-    got = {}
-    for n in g.live:
-        if n.kind == "stmt" and isinstance(n.ast, ast.Assign):
-            for t in n.ast.targets:
-                ts = src(t)
-                v = n.ast.value
-                if ts in want and isinstance(v, ast.Call) and dotted(v.func) == "max" and len(v.args) == 2:
-                    got[ts] = {rd.canon(a, n) for a in v.args}
-                elif ts in ("self.cpu",) or (ts in want and ts not in got):
-                    got[ts] = {"<" + src(v)[:60] + ">"}
-    ok = all(got.get(k) == v for k, v in want.items()) and "self.cpu" not in got and g.on_every_path([n for n in g.live if n.kind == "stmt" and isinstance(n.ast, ast.Assign) and src(n.ast.targets[0]) == "self.cpu.memory"])
-    chk.require(ok, chk.fkey(f, "maximum of each dimension"), f"the conjunction merges the operands with {got}; expected the maximum of memory, of cores and of duration separately (each on every path): "
-                "a request `cpu(mem=32G) & cpu(cores=4)` must keep both demands", loc)
+    DIMS = ("cpu.memory", "cpu.cores", "duration")
+    sites = 0
+    for f in tree.nontest_funcs():
+        if f.module.name != "launcherfinder.specs" or f.cls is None or f.cls.qual != "HostSimpleRequirement":
+            continue
+        g = CFG(f.node)
+        rd = ReachingDefs(g)
+        recvs = set()
+        for n in g.live:
+            if n.kind == "stmt" and isinstance(n.ast, (ast.Assign, ast.AugAssign)):
+                for t in (n.ast.targets if isinstance(n.ast, ast.Assign) else [n.ast.target]):
+                    ts = src(t)
+                    for d in DIMS:
+                        if ts.endswith("." + d):
+                            recvs.add(ts[: -len(d) - 1])
+                    if ts.endswith(".cpu") and not isinstance(getattr(n.ast, "value", None), ast.Call):
+                        recvs.add(ts[:-4])
+        # constructors / helpers that only initialise the fields with constants are not merges
+        for r in sorted(recvs):
+            got, whole = {}, False
+            for n in g.live:
+                if n.kind == "stmt" and isinstance(n.ast, ast.Assign):
+                    for t in n.ast.targets:
+                        ts = src(t)
+                        v = n.ast.value
+                        if ts == f"{r}.cpu" and not (isinstance(v, ast.Call) and tail(v) == "CPUSpecification"):
+                            whole = True
+                        for d in DIMS:
+                            if ts == f"{r}.{d}":
+                                if isinstance(v, ast.Constant):
+                                    continue
+                                if isinstance(v, ast.Call) and dotted(v.func) == "max" and len(v.args) == 2:
+                                    got.setdefault(d, []).append({src(a) if src(a) == ts else rd.canon(a, n) for a in v.args})
+                                elif isinstance(v, ast.Call) and dotted(v.func) in ("int", "parse_size", "parse_timespan"):
+                                    continue
+                                else:
+                                    got.setdefault(d, []).append({"<" + src(v)[:50] + ">"})
+            if not got and not whole:
+                continue
+            sites += 1
+            ok = not whole
+            for d in DIMS:
+                for pair in got.get(d, []):
+                    others = [x for x in pair if x != f"{r}.{d}"]
+                    ok = ok and f"{r}.{d}" in pair and len(others) == 1 and others[0].endswith("." + d)
+            ok = ok and all(d in got for d in DIMS)
+            chk.require(ok, chk.fkey(f, "maximum of each dimension"), f"`{f.qual}` merges the operands with {got}{' (whole cpu specification assigned)' if whole else ''}; expected the maximum of memory, of cores and of "
+                        "duration separately: a request `cpu(mem=32G) & cpu(cores=4)` must keep both demands", chk.loc(f.module, f.node))
+    chk.min_instances(sites, 1, "places where two requirements are merged")
 
 
 def union_returns_matched_alternative(chk: Check):
